@@ -31,6 +31,21 @@ CHECKS["C06"] = (
     "DESIGN.md 6/C06",
 )
 
+CHECKS["C18"] = (
+    "model_checking",
+    "exhaustive enumeration of all pattern syntax trees up to a node bound x all symbol sequences of length 5, real Matcher vs Brzozowski-derivative reference (plus a faithful model of the known-defective automaton used only to attribute known finding F5)",
+    "Every pattern AST with <= 5 (quick) / 6 (thorough) nodes over {a, b, .} and ?,*,+,|,concatenation (and '$' tail variants), rendered to text and parsed by the real parser, is run against every sequence in {a,b,c}^5 on a fresh real Matcher; match_symbol, is_complete and valid_next_symbols are compared at every step with a derivative-based reference. The real level and test-case patterns are checked over all 8 data-unit names. Exhaustive within the bound.",
+    "Reference = models/regexref.py (own parser + derivatives). A disagreement is attributed to known finding F5 only if the undirected-epsilon Thompson model predicts every observation of that case; anything else is a violation.",
+    "DESIGN.md 6/C18",
+)
+CHECKS["C19"] = (
+    "model_checking",
+    "exhaustive enumeration of (required list, pattern set, depth limit, priority) inputs to the real make_matching_sequence, judged by a reference shortest-completion search with a visited set",
+    "All required lists (<= 3 over {a,b}) x all F5-free patterns <= 4 nodes (and pairs of them) x depth limits x priorities, an epsilon-free union family that exposes greedy behaviour, and the real level x test-case pattern combinations with picture lists: the result must embed the required symbols, match every pattern, have the reference's shortest length; impossibility only when the reference finds nothing within the consecutive-insertion limit.",
+    "Known finding F6 (greedy search) is attributed only when the greedy-only reference predicts existence and length exactly; F5 only for real level patterns judged under the defect automaton.",
+    "DESIGN.md 6/C19",
+)
+
 NOT_YET = "check not built yet in this revision (planned, see DESIGN.md section 6)"
 
 
